@@ -55,6 +55,12 @@ def plan(tier, seed):
                 g.append({"part": "rd", "xtal": name, "S": S, "stat": stat, "cutoff": "zero-pinned", "T": [300.0]})
                 n += 1
             groups.append(g)
+    # centred conventional cells with a primitive matrix: translation-equivalent atoms are not contiguous in the atom list and the
+    # species have different masses
+    for name, pm in (("NaCl-conv-8-interleaved", "F"), ("bct-AB-conv-4", "I")):
+        for S in (SS[0], SS[1]) if name != "NaCl-conv-8-interleaved" else ([[1, 0, 0], [0, 1, 0], [0, 0, 1]], SS[1]):
+            groups.append([{"part": "rd", "xtal": name, "S": S, "pm": pm, "stat": stat, "cutoff": None, "T": [300.0]} for stat in ("quantum", "classical")])
+            n += 2
     for name in xts:
         g = []
         for mesh, fwin in itertools.product(([2, 2, 2], [3, 2, 1], [2, 2, 3]) if tier == "quick" else ([2, 2, 2], [3, 2, 1], [2, 2, 3], [4, 4, 4], [1, 1, 5], [3, 3, 3]), (None, "window")):
@@ -102,7 +108,7 @@ def run_rd(case, seed, st):
 
     if "ph" not in st:
         c = phx.xtal(case["xtal"])
-        st["ph"] = phx.make_phonopy(c, case["S"], None)
+        st["ph"] = phx.make_phonopy(c, case["S"], case.get("pm"))
         st["fc"] = phx.supercell_fc(st["ph"], phx.model_for(st["ph"], "nn", seed))
     ph, fc = st["ph"], st["fc"]
     sc = ph.supercell
@@ -172,6 +178,21 @@ def run_rd(case, seed, st):
     if e > 1e-9:
         return dict(ok=False, sig="C19/d2f/" + tag, resid=float(e), nontrivial=nontriv, transitions=trans,
                     msg="%s S=%s: force constants rebuilt from the eigen-solutions differ from the original by %.3g (rel)" % (case["xtal"], case["S"], e))
+    # the same round trip on a crystal with imaginary modes, with the reported frequencies handed back through the public setter
+    # unmodified (what treat_imaginary_modes-style post-processing does before run_d2f)
+    fcu = fc.copy()
+    for i in range(ns):
+        fcu[i, i] -= np.eye(3) * masses.min() * (0.4 * fall[-1] / U.VaspToTHz) ** 2
+    rdu = RandomDisplacements(ph.supercell, ph.primitive, np.array(fcu, dtype="double", order="C"), dist_func=case["stat"], factor=U.VaspToTHz)
+    fr = np.array(rdu.frequencies, copy=True)
+    if (fr < -1e-3 * np.abs(fr).max()).any():
+        rdu.frequencies = fr
+        rdu.run_d2f()
+        trans += 1
+        e = np.abs(np.array(rdu.force_constants) - fcu).max() / np.abs(fcu).max()
+        if e > 1e-9:
+            return dict(ok=False, sig="C19/d2f/frequencies-handed-back/imaginary-modes/" + tag, resid=float(e), nontrivial=nontriv, transitions=trans,
+                        msg="%s S=%s: crystal with imaginary modes, frequencies = frequencies; run_d2f(): rebuilt force constants differ from the original by %.3g (rel)" % (case["xtal"], case["S"], e))
     # clipping
     rdc = RandomDisplacements(ph.supercell, ph.primitive, np.array(fc, dtype="double", order="C"), dist_func=case["stat"], max_distance=0.02, factor=U.VaspToTHz)
     rdc.run(1500.0, number_of_snapshots=4, random_seed=1)
